@@ -586,14 +586,29 @@ def _gargs(o):
     return out
 
 
-SUITES = [C02()]
+class C02Memory(C02):
+    """the same cases and the same rdflib runs against the front end composed with C01's MEMORY model
+    (coq/Dataset/OverMemory.v m_model_obs: Memory's indexes, context dictionaries, default-context compression)"""
+    name = "dataset_memory"
+    imports = "From RV Require Import Dataset.Model Dataset.OverMemory."
+    model = "m_model_obs"
+    quick_n = 300
+    thorough_n = 6000
+
+    def sweep(self):
+        return []
+
+
+SUITES = [C02(), C02Memory()]
 
 TRUSTED = [
     "Coq 8.16.1 kernel and standard library",
     "harness/c02.py: translation of cases to rdflib calls and of rdflib results to numbers (terms.py numbering)",
     "the abstract Memory store of coq/Dataset/Model.v (quad set + union-only triples + known graph names) describes what "
     "rdflib/plugins/stores/memory.py exposes to graph.py: tied by this correspondence run, and PROVED to be realised by C01's "
-    "Memory model (coq/Dataset/OverMemoryProofs.v: every store-level write simulated, every read enumerated, every history); "
+    "Memory model (coq/Dataset/OverMemoryProofs.v, OverMemoryReads.v, OverMemoryRun.v: every store-level write simulated, every "
+    "store read and every front-end read enumerated, the history theorem over Memory); suite dataset_memory runs that "
+    "Memory-level front end against rdflib; "
     "that C01's Memory model is memory.py is property C01's tie",
 ]
 ASSUMPTIONS = [
